@@ -16,6 +16,10 @@ def build(world):
     return hc.build_for(world, PROP) + gu.model_units(world)
 
 
+def extra_checks(world):
+    return hc.dispatch_obligations(world, PROP)
+
+
 def replay(world, ob):
     return hn.replay(PROP, world, ob)
 
